@@ -152,6 +152,15 @@ func (sc *sweepCase) Path(n *LNode) []int {
 	return sc.paths[n]
 }
 
+// Loc: signature path of a node below the command document that carries the focus, or (for nodes in another
+// document of the line) below the line root.
+func (sc *sweepCase) Loc(n *LNode) string {
+	if p := sigPath(sc.C.Cmd, n); p != "" || n == sc.C.Cmd {
+		return p
+	}
+	return sigPath(sc.C.Root, n)
+}
+
 // follow walks an index path in a parsed tree; nil if the shape differs.
 func follow(j *JNode, p []int) *JNode {
 	for _, i := range p {
